@@ -2,7 +2,7 @@
 (* Trace validation for C10.  One case = one SESSION replayed in one process of the real library: *)
 (*   init   : objects in the store before the first call                                           *)
 (*   events : alternating                                                                          *)
-(*     call  [f, args, cfg <<backend,dtype,layout>> | <<"","","">>, raised, new (inputs built for  *)
+(*     call  [f, args, cfg <<backend,dtype,layout>> | <<"","","">>, fam, raised, new (inputs built for  *)
 (*            this call, they enter the heap before it), objs (every pre-existing object AFTER the *)
 (*            call), res (result record)]                                                          *)
 (*     probe [objs (every object after the harness wrote into the result's buffers),               *)
@@ -26,7 +26,7 @@ Init == /\ tid \in 1..Len(Cases) /\ l = 1 /\ objs = Tr.init /\ phase = "idle"
         /\ verdict = "ok" /\ where = "" /\ note = ""
 
 Ev == Tr.events[l]
-HasCfg(e) == e.cfg[1] # ""
+HasCfg(e) == e.cfg[1] # "" /\ e.fam = "std"     \* the non-finite family may be refused by a function (outside its domain)
 Sup(e) == Supported(e.f, e.cfg[1], e.cfg[2], e.cfg[3])
 
 \* IsEvent("call") /\ Call(f, args) /\ logged post-state
